@@ -254,7 +254,7 @@ def gen_plan_rm(rng, cls, n_ops):
         if r < 0.30:
             ops.append(["call", rand_seed(rng), int(rng.integers(1, 6)), str(rng.choice(["field", "f2", "none"]))])
         elif r < 0.55:
-            attr = str(rng.choice(["var", "len_scale", "nugget", "anis", "angles", "opt", "opt"]))
+            attr = str(rng.choice(["var", "len_scale", "nugget", "anis", "angles", "opt", "opt", "anis_elem", "angles_elem"]))
             ops.append(["mod", attr, int(rng.integers(0, 6))])
         elif r < 0.62:
             ops.append(["restore"])
@@ -281,6 +281,16 @@ def apply_mod(model, attr, k):
         args = OPT[model.name]
         arg, vals = args[k % len(args)]
         setattr(model, arg, vals[(k // len(args)) % 2])      # ONLY the optional argument changes
+        return
+    if attr == "anis_elem" and model.dim > 1:
+        # element-wise edit of the array the property hands out (no setter involved): model.anis[i] = v / model.anis *= c
+        if k % 2:
+            model.anis[(k // 2) % (model.dim - 1)] = ANIS[(k // 2) % 3]
+        else:
+            model.anis *= [0.5, 2.0, 0.8][(k // 2) % 3]
+        return
+    if attr == "angles_elem" and model.dim > 1:
+        model.angles[(k // 2) % N_ANG[model.dim]] = ANG[k % 3] + 0.2 * (k // 3)
         return
     k = k % 3
     if attr == "var":
@@ -503,7 +513,7 @@ def gen_plan_fo(rng, n_ops):
         if r < 0.30:
             ops.append(["call", rand_seed(rng), int(rng.integers(1, 6)), str(rng.choice(["field", "f2", "none"]))])
         elif r < 0.52:
-            ops.append(["mod", str(rng.choice(["var", "len_scale", "nugget", "anis", "anis", "angles", "opt", "opt"])), int(rng.integers(0, 6))])
+            ops.append(["mod", str(rng.choice(["var", "len_scale", "nugget", "anis", "anis", "angles", "opt", "opt", "anis_elem", "anis_elem", "angles_elem"])), int(rng.integers(0, 6))])
         elif r < 0.58:
             ops.append(["restore"])
         elif r < 0.65:
@@ -752,10 +762,10 @@ def amp_scale(a, z1, z2, sf=None):
     return float(abs(a) * w.sum()) + 1e-300
 
 
-def tie_calls(ctx, gs, drv, rng, reps):
+def tie_calls(ctx, gs, drv, rng, reps, offset=0):
     """generator __call__ and generate_grid vs the extracted definitions the theorems are about"""
     from gstools.tools.geometric import generate_grid
-    for rep in range(reps):
+    for rep in range(offset, offset + reps):
         dim = int(rng.integers(1, 4))
         n = int(rng.choice([1, 2, 5]))
         N = int(rng.choice([3, 8]))
@@ -859,10 +869,10 @@ def followup_pair(ctx, gs, a, b, label):
     return found
 
 
-def tie_compare(ctx, gs, drv, rng, reps):
+def tie_compare(ctx, gs, drv, rng, reps, offset=0):
     """covmodel.tools.compare (CovModel.__eq__) vs the modelled isclose comparison, incl. pairs around the tolerance"""
     tags = {}
-    for rep in range(reps):
+    for rep in range(offset, offset + reps):
         dim = int(rng.integers(1, 4))
         sp = rand_spec(rng, dim)
         a = build_model(gs, sp)
@@ -949,9 +959,9 @@ def make_srf(gs, rng, kind, dim, rotated):
     return m, gs.SRF(m, generator=kind, mode_no=int(rng.choice([8, 25])), seed=seed)
 
 
-def probe_locality(ctx, gs, rng, reps):
+def probe_locality(ctx, gs, rng, reps, offset=0):
     import meshio
-    for rep in range(reps):
+    for rep in range(offset, offset + reps):
         kind = ["RandMeth", "IncomprRandMeth", "Fourier"][rep % 3]
         dim = int(rng.integers(2, 4)) if kind == "IncomprRandMeth" else int(rng.integers(1, 4))
         rotated = bool(rng.random() < 0.5) if dim > 1 else False
@@ -1037,10 +1047,10 @@ def final_settings(srf, kind):
     return dict(mode_no=int(g.mode_no))
 
 
-def probe_history_vs_fresh(ctx, gs, rng, reps):
+def probe_history_vs_fresh(ctx, gs, rng, reps, offset=0):
     """nugget-free: any history on one object, then one call, vs a freshly constructed object with the final
     settings (no use of the model: pure implementation probe)"""
-    for rep in range(reps):
+    for rep in range(offset, offset + reps):
         kind = ["RandMeth", "Fourier", "IncomprRandMeth"][rep % 3]
         dim = int(rng.integers(2, 4)) if kind == "IncomprRandMeth" else int(rng.integers(1, 4))
         sp = rand_spec(rng, dim, cls=str(rng.choice(CLS_PPF if rng.random() < 0.5 else CLS_MCMC)), nugget=0.0)
@@ -1054,7 +1064,7 @@ def probe_history_vs_fresh(ctx, gs, rng, reps):
         for _ in range(int(rng.integers(1, 8))):
             r = rng.random()
             if r < 0.45:
-                attr = str(rng.choice(["var", "len_scale", "anis", "angles"] + (["opt"] * 4 if sp["cls"] in OPT else [])))
+                attr = str(rng.choice(["var", "len_scale", "anis", "angles", "anis_elem", "angles_elem"] + (["opt"] * 4 if sp["cls"] in OPT else [])))
                 k = int(rng.integers(0, 6))
                 apply_mod(srf.model, attr, k)
                 trace.append(["mod", attr, k])
@@ -1090,12 +1100,12 @@ def probe_history_vs_fresh(ctx, gs, rng, reps):
                                max_abs_diff=float(np.max(np.abs(hist - fresh)))), key="history-vs-fresh:%s" % kind)
 
 
-def probe_seed_change(ctx, gs, rng, reps):
+def probe_seed_change(ctx, gs, rng, reps, offset=0):
     """after changing the seed of an EXISTING generator (through SRF.__call__(seed=), generator.seed =, update(seed=),
     update(model, seed)) the field equals that of a freshly constructed generator with that seed; seeds: equal, neighbouring
     (s+1, s-1, s+7, s*(1+3e-6)), far apart; held by int / new int object / np.int64 / np.int32; ensemble loops seed = s + i"""
     routes = ["call", "setter", "update", "update_model"]
-    for rep in range(reps):
+    for rep in range(offset, offset + reps):
         kind = ["RandMeth", "Fourier", "IncomprRandMeth"][rep % 3]
         route = routes[(rep // 3) % 4]
         dim = int(rng.integers(2, 4)) if kind == "IncomprRandMeth" else int(rng.integers(1, 4))
@@ -1151,12 +1161,12 @@ def select_of(direction, dim):
     return list(direction)[:dim]
 
 
-def probe_mesh(ctx, gs, rng, reps):
+def probe_mesh(ctx, gs, rng, reps, offset=0):
     """Field.mesh on meshio meshes (3-D and 2-D point clouds, several cell blocks) for every documented kind of
     `direction` (axis strings and index lists, permuted and non-leading axes), points and centroids: the returned field and
     what is written to point_data / cell_data equal the unstructured evaluation at the selected coordinates"""
     import meshio
-    for rep in range(reps):
+    for rep in range(offset, offset + reps):
         kind = ["RandMeth", "Fourier", "IncomprRandMeth"][rep % 3]
         dim = int(rng.integers(2, 4)) if kind == "IncomprRandMeth" else 1 + (rep // 3) % 3
         mdim = 3 if (dim == 3 or rng.random() < 0.75) else 2
@@ -1214,12 +1224,12 @@ def probe_mesh(ctx, gs, rng, reps):
                               key="mesh:%s:%s" % (kind, mode))
 
 
-def probe_positions(ctx, gs, rng, reps):
+def probe_positions(ctx, gs, rng, reps, offset=0):
     """successive calls of ONE object on position sets that np.allclose calls equal (difference small RELATIVE to the
     coordinate magnitude, or below atol) but that are different locations: UTM-like offsets 1e5..1e7 shifted by a few
     units, staggered structured grids at such offsets, coordinates of order 1e-9.  The second call must equal a fresh
     object's evaluation at the NEW positions and srf.pos must be the new positions"""
-    for rep in range(reps):
+    for rep in range(offset, offset + reps):
         kind = ["RandMeth", "Fourier", "IncomprRandMeth"][rep % 3]
         dim = int(rng.integers(2, 4)) if kind == "IncomprRandMeth" else int(rng.integers(1, 4))
         rotated = bool(rng.random() < 0.25) if dim > 1 else False
@@ -1327,9 +1337,9 @@ def _hist_change(gs, rng, srf, kind, family, nug, trace):
     attributes are handed over as numpy arrays which the caller then edits in place: the model must keep the values it
     was given.  Returns None or a description of an aliasing violation."""
     m = srf.model
-    attrs = ["var", "nugget", "len_scale", "rescale", "anis"]
+    attrs = ["var", "nugget", "len_scale", "rescale", "anis", "anis_elem"]
     if family == "plain":
-        attrs += ["len_scale_list", "angles", "opt", "opt"]
+        attrs += ["len_scale_list", "angles", "opt", "opt", "angles_elem"]
     attr = str(rng.choice(attrs))
     k = int(rng.integers(0, 6))
     alias = None
@@ -1343,7 +1353,22 @@ def _hist_change(gs, rng, srf, kind, family, nug, trace):
         after = np.array(getattr(m, "anis" if name == "len_scale" else name), dtype=float)
         return None if np.array_equal(before, after) else "model.%s follows the caller's later in-place edits of the array it was given" % name
 
-    if attr == "nugget":
+    if attr == "anis_elem":
+        # element-wise in-place edit of the array the property hands out: no setter is involved
+        n_an = len(np.atleast_1d(m.anis))
+        if n_an == 0:
+            m.var = VAR[k % 3]
+            val = "var"
+        elif k % 2:
+            val = ["anis[%d] =" % ((k // 2) % n_an), [0.5, 0.8, 0.3][(k // 2) % 3]]
+            m.anis[(k // 2) % n_an] = val[1]
+        else:
+            val = ["anis *=", [0.5, 0.9, 0.7][(k // 2) % 3]]
+            m.anis *= val[1]
+    elif attr == "angles_elem" and m.dim > 1:
+        val = ["angles[%d] =" % ((k // 2) % N_ANG[m.dim]), ANG[k % 3] + 0.2 * (k // 3)]
+        m.angles[(k // 2) % N_ANG[m.dim]] = val[1]
+    elif attr == "nugget":
         val = [0.4, 0.7, 0.2][k % 3] if nug else 0.0
         m.nugget = val
     elif attr == "rescale":
@@ -1421,7 +1446,7 @@ def interfere(gs, rng, trace=None):
         trace.append(["interfere", what])
 
 
-def probe_srf_history(ctx, gs, rng, reps):
+def probe_srf_history(ctx, gs, rng, reps, offset=0):
     """GENERAL history probe (implementation only).  Random operation sequences on ONE SRF object:
     srf(pos) / srf() and srf(seed=) on STORED positions / set_pos / mesh-type switches / positions in various containers
     and memory layouts (tuple, lists, C / Fortran / strided / transposed 2-D arrays; n = 1, 2, dim, dim+1, ...) / in-place
@@ -1435,7 +1460,7 @@ def probe_srf_history(ctx, gs, rng, reps):
     the last call (the real generator must then have re-sampled and restarted its nugget stream) and otherwise called in
     lock step (so that with a nugget the same sub-stream is due).  Same positions, same mesh type => bitwise equality."""
     import pickle
-    for rep in range(reps):
+    for rep in range(offset, offset + reps):
         kind = ["RandMeth", "Fourier", "IncomprRandMeth", "RandMeth"][rep % 4]
         nug = [0.0, 0.4][(rep // 4) % 2]
         family = "plain"
@@ -1630,7 +1655,7 @@ def probe_srf_history(ctx, gs, rng, reps):
             ctx.dist["srf_history_op"][kk] = ctx.dist["srf_history_op"].get(kk, 0) + 1
 
 
-def probe_interference(ctx, gs, rng, reps):
+def probe_interference(ctx, gs, rng, reps, offset=0):
     """a fresh model + fresh SRF built from the same specification and seed gives the same field whatever happened to
     OTHER objects and to numpy's global random state in between: class x dim x generator x sampling cells"""
     cells = []
@@ -1642,9 +1667,8 @@ def probe_interference(ctx, gs, rng, reps):
                 samplings = ["auto"] if kind == "Fourier" else (["auto", "mcmc", "inversion"] if cls in CLS_PPF else ["auto"])
                 for smp in samplings:
                     cells.append((cls, dim, kind, smp))
-    order = rng.permutation(len(cells))
-    for i in order[:reps]:
-        cls, dim, kind, smp = cells[int(i)]
+    for rep in range(offset, offset + reps):
+        cls, dim, kind, smp = cells[(rep * 37 + int(ctx.seed)) % len(cells)]
         sp = rand_spec(rng, dim, cls=cls, nugget=float(rng.choice([0.0, 0.3])))
         seed = int(rng.choice([3, 99999, 20170519]))
         kw = dict(period=[8.0] * dim, mode_no=[4] * dim) if kind == "Fourier" else dict(mode_no=8, sampling=smp)
@@ -1671,9 +1695,97 @@ def probe_interference(ctx, gs, rng, reps):
                 break
 
 
-def probe_equal_histories(ctx, gs, rng, reps):
+DIM_CLASSES = [("Stable", dict(alpha=1.3)), ("Rational", dict(alpha=2.0)), ("SuperSpherical", dict(nu=3.5)), ("Spherical", {}),
+               ("Cubic", {}), ("Linear", {}), ("Circular", {}), ("TPLSimple", dict(nu=3.0)),        # no analytic spectrum (hankel transform)
+               ("Gaussian", {}), ("Exponential", {}), ("Matern", dict(nu=1.5)), ("JBessel", dict(nu=2.0)), ("TPLGaussian", dict(hurst=0.6))]
+
+
+def reconstruct(gs, m):
+    """a freshly CONSTRUCTED model with the present parameter VALUES of m (no copy of m's internal state)"""
+    kw = dict(dim=int(m.dim), var=float(m.var), len_scale=float(m.len_scale), nugget=float(m.nugget), rescale=float(m.rescale))
+    if m.dim > 1:
+        kw["anis"] = [float(x) for x in np.atleast_1d(m.anis)]
+        kw["angles"] = [float(x) for x in np.atleast_1d(m.angles)]
+    for o in m.opt_arg:
+        kw[o] = float(getattr(m, o))
+    return getattr(gs, m.name)(**kw)
+
+
+def probe_dim_change(ctx, gs, rng, reps, offset=0):
+    """in-place `model.dim = n` (up and down, before the SRF is built or between calls, followed by other in-place
+    changes) for classes with and without analytic spectrum, all three generators: every call equals the call of a fresh
+    SRF on a freshly CONSTRUCTED model with the present parameter values (not a copy of the changed object)"""
+    for rep in range(offset, offset + reps):
+        kind = ["RandMeth", "Fourier", "IncomprRandMeth"][rep % 3]
+        name, okw = DIM_CLASSES[(rep // 3 + int(ctx.seed)) % len(DIM_CLASSES)]
+        dims = [2, 3] if kind == "IncomprRandMeth" else [1, 2, 3]
+        d0 = int(rng.choice(dims))
+        kw0 = dict(dim=d0, var=float(rng.choice(VAR)), len_scale=float(rng.choice(LEN)), **okw)
+        if d0 > 1:
+            kw0["anis"] = [float(rng.choice(ANIS)) for _ in range(d0 - 1)]
+            kw0["angles"] = [float(rng.choice(ANG)) for _ in range(N_ANG[d0])]
+        model = getattr(gs, name)(**kw0)
+        seed = int(rng.choice([3, 424242]))
+        trace = [["model", name, kw0]]
+        build_first = bool(rng.random() < 0.6)
+        srf = None
+
+        def make(m):
+            if kind == "Fourier":
+                return gs.SRF(m, generator=kind, seed=seed, period=[8.0, 10.0, 12.5][:m.dim], mode_no=[4, 2, 2][:m.dim])
+            return gs.SRF(m, generator=kind, seed=seed, mode_no=6)
+        if build_first:
+            srf = make(model)
+            srf(rand_pos(rng, d0, 3, 6.0))
+            trace.append(["SRF built, one call in dim %d" % d0])
+        ok = True
+        for step in range(int(rng.integers(1, 4))):
+            d1 = int(rng.choice([d for d in dims if d != model.dim]))
+            model.dim = d1
+            trace.append(["model.dim =", d1])
+            if rng.random() < 0.5 and d1 > 1:
+                val = [float(rng.choice(ANIS)) for _ in range(d1 - 1)]
+                model.anis = val
+                trace.append(["model.anis =", val])
+            if rng.random() < 0.3:
+                model.len_scale = float(rng.choice(LEN))
+                trace.append(["model.len_scale =", float(model.len_scale)])
+            if srf is None:
+                srf = make(model)
+                trace.append(["SRF built"])
+            structured = bool(rng.random() < 0.3)
+            if structured:
+                pos = tuple(np.sort(rng.uniform(-6, 6, int(rng.integers(1, 4)))) for _ in range(d1))
+                mt = "structured"
+            else:
+                npt = int(rng.choice([1, d1, 4]))
+                pos, mt = tuple(rng.uniform(-6, 6, npt) for _ in range(d1)), "unstructured"
+            got = np.array(srf(pos, mesh_type=mt))
+            fresh_model = reconstruct(gs, model)
+            g = srf.generator
+            if kind == "Fourier":
+                fresh = gs.SRF(fresh_model, generator=kind, seed=seed, period=[float(x) for x in g.period], mode_no=[int(x) for x in g.mode_no])
+            else:
+                fresh = gs.SRF(fresh_model, generator=kind, seed=seed, mode_no=6)
+            want = np.array(fresh(pos, mesh_type=mt))
+            trace.append(["call", mt, [[C.fhex(x) for x in p_] for p_ in pos]])
+            ctx.count(("dim-change", kind, name, d1, build_first), hist=dict(stage="probe:dim-change", generator=kind, cls=name, dim=d1))
+            if not (C.bit_equal(got, want) and fresh_model == model):
+                ctx.violation("probe: in-place model.dim change (%s, %s)" % (kind, name),
+                              "after `model.dim = %d` the field differs from that of a fresh SRF on a freshly constructed %s with the present parameter values %r" % (
+                                  d1, name, model_params(model)),
+                              dict(generator=kind, cls=name, seed=seed, trace=trace,
+                                   max_abs_diff=float(np.max(np.abs(got - want))) if got.shape == want.shape else None),
+                              key="dim-change:%s:%s" % (kind, name))
+                ok = False
+                break
+        if not ok:
+            continue
+
+
+def probe_equal_histories(ctx, gs, rng, reps, offset=0):
     """equal call histories, the seeds held by different objects => equal nugget noise"""
-    for rep in range(reps):
+    for rep in range(offset, offset + reps):
         kind = ["RandMeth", "Fourier", "IncomprRandMeth"][rep % 3]
         dim = int(rng.integers(2, 4)) if kind == "IncomprRandMeth" else int(rng.integers(1, 4))
         sp = rand_spec(rng, dim, cls=str(rng.choice(CLS_PPF)), nugget=0.4)
@@ -1735,6 +1847,35 @@ def corpus_isclose(ctx, gs, drv):
 
 # --------------------------------------------------------------------------- main
 
+def guarded(ctx, name, fn, reps, rng, *args):
+    """run a probe case by case: an exception inside a case (implementation OR harness, e.g. on a changed tree) is a
+    finding with its input — the state of the check's PRNG before the case reproduces it — and the probe goes on"""
+    import traceback
+    bad = 0
+    for i in range(reps):
+        state = copy.deepcopy(rng.g.bit_generator.state)
+        try:
+            fn(*args, 1, i)
+        except Exception as e:      # noqa: BLE001
+            bad += 1
+            if bad <= 5:
+                tb = traceback.format_exc()
+                ctx.violation("probe: %s, case %d raised" % (name, i), "unexpected %s: %s" % (type(e).__name__, e),
+                              dict(probe=name, case=i, prng_state=json.loads(json.dumps(state, default=str)), traceback=tb.splitlines()[-12:]),
+                              key="exception:%s:%s" % (name, type(e).__name__))
+
+
+def guarded_plan(ctx, gs, drv, plan, runner):
+    import traceback
+    try:
+        return runner(ctx, gs, drv, plan)
+    except Exception as e:      # noqa: BLE001
+        tb = traceback.format_exc()
+        ctx.violation("correspondence: %s raised" % plan["kind"], "unexpected %s: %s" % (type(e).__name__, e),
+                      dict(plan=plan, traceback=tb.splitlines()[-12:]), key="exception:%s:%s" % (plan["kind"], type(e).__name__))
+        return 0
+
+
 def run(ctx, only_plan=None):
     import gstools as gs
     rng = C.Rng(ctx.seed, "C11")
@@ -1791,12 +1932,12 @@ def run(ctx, only_plan=None):
         n_hist = 160 if thorough else 40
         n_ops = 14 if thorough else 10
         if drv is not None:
-            tie_calls(ctx, gs, drv, rng, 80 if thorough else 25)
-            tie_compare(ctx, gs, drv, rng, 400 if thorough else 150)
+            guarded(ctx, "tie_calls", tie_calls, 80 if thorough else 25, rng, ctx, gs, drv, rng)
+            guarded(ctx, "tie_compare", tie_compare, 400 if thorough else 150, rng, ctx, gs, drv, rng)
             for h in range(n_hist):
                 for cls in ("RandMeth", "IncomprRandMeth"):
                     plan = gen_plan_rm(rng, cls, n_ops)
-                    n = run_plan_rm(ctx, gs, drv, plan)
+                    n = guarded_plan(ctx, gs, drv, plan, run_plan_rm)
                     ctx.count(("history", cls, plan["init"]["spec"]["dim"], n) if n else None, n=max(1, n),
                               hist=dict(stage="history", generator=cls, dim=plan["init"]["spec"]["dim"], sampling=plan["init"]["sampling"]))
                     if h < 2:
@@ -1809,7 +1950,7 @@ def run(ctx, only_plan=None):
                             ctx.dist.setdefault("seed", {})
                             ctx.dist["seed"][sk] = ctx.dist["seed"].get(sk, 0) + 1
                 plan = gen_plan_fo(rng, n_ops)
-                n = run_plan_fo(ctx, gs, drv, plan)
+                n = guarded_plan(ctx, gs, drv, plan, run_plan_fo)
                 ctx.count(("history", "Fourier", plan["init"]["spec"]["dim"], n) if n else None, n=max(1, n),
                           hist=dict(stage="history", generator="Fourier", dim=plan["init"]["spec"]["dim"]))
                 if h < 1:
@@ -1817,14 +1958,15 @@ def run(ctx, only_plan=None):
                 for op in plan["ops"]:
                     ctx.dist.setdefault("op", {})
                     ctx.dist["op"]["F:" + op[0]] = ctx.dist["op"].get("F:" + op[0], 0) + 1
-        probe_locality(ctx, gs, rng, 240 if thorough else 60)
-        probe_mesh(ctx, gs, rng, 600 if thorough else 200)
-        probe_seed_change(ctx, gs, rng, 480 if thorough else 150)
-        probe_positions(ctx, gs, rng, 600 if thorough else 150)
-        probe_srf_history(ctx, gs, rng, 1200 if thorough else 300)
-        probe_interference(ctx, gs, rng, 400 if thorough else 120)
-        probe_history_vs_fresh(ctx, gs, rng, 450 if thorough else 120)
-        probe_equal_histories(ctx, gs, rng, 150 if thorough else 45)
+        guarded(ctx, "probe_locality", probe_locality, 240 if thorough else 60, rng, ctx, gs, rng)
+        guarded(ctx, "probe_mesh", probe_mesh, 600 if thorough else 200, rng, ctx, gs, rng)
+        guarded(ctx, "probe_seed_change", probe_seed_change, 480 if thorough else 150, rng, ctx, gs, rng)
+        guarded(ctx, "probe_positions", probe_positions, 600 if thorough else 150, rng, ctx, gs, rng)
+        guarded(ctx, "probe_srf_history", probe_srf_history, 1200 if thorough else 300, rng, ctx, gs, rng)
+        guarded(ctx, "probe_interference", probe_interference, 400 if thorough else 120, rng, ctx, gs, rng)
+        guarded(ctx, "probe_dim_change", probe_dim_change, 390 if thorough else 117, rng, ctx, gs, rng)
+        guarded(ctx, "probe_history_vs_fresh", probe_history_vs_fresh, 450 if thorough else 120, rng, ctx, gs, rng)
+        guarded(ctx, "probe_equal_histories", probe_equal_histories, 150 if thorough else 45, rng, ctx, gs, rng)
         ctx.notes.append("history correspondence: %s" % json.dumps(STATS))
     finally:
         if drv:
